@@ -1,5 +1,377 @@
-"""Contracts of execution.durable_execution.wrapper verified against the real body."""
+"""Contract of execution.durable_execution.<locals>.wrapper verified against the real body (C18, C03.exec, C06.exec,
+C11.exec, C16.exec, C17.exec).  The user handler's future, json.dumps, the thread pool and the service client are opaque."""
+from __future__ import annotations
+
+import ast
+
+import z3
+
+from pyvc import ops
+from pyvc.engine import Engine, Hooks
+from pyvc.loader import ClassInfo
+from pyvc.ops import F, T, is_none, mk_opt, strip_opt
+from pyvc.state import St
+from pyvc.values import ClassRef, ExtRef, FuncRef, OpaqueFn, Opt, Ref, Sym, Unsupported, enum_sort, fresh, fresh_name, is_sym, simp, zbool
+
+WRAP = "execution.durable_execution"
+
+
+class WrapperHooks(Hooks):
+    def ext_call(self, eng, st, name, args, kwargs):
+        if name in ("threading.Lock", "Lock"):
+            return [("val", st.alloc("opaque:Lock", {}), st)]
+        if name in ("queue.Queue",):
+            return [("val", st.alloc("opaque:Queue", {}), st)]
+        if name in ("threading.Event", "Event"):
+            return [("val", st.alloc("opaque:Event", {}), st)]
+        if name in ("collections.deque", "deque"):
+            return [("val", st.alloc("opaque:deque", {}), st)]
+        if name in ("concurrent.futures.ThreadPoolExecutor", "ThreadPoolExecutor"):
+            st.emit("pool_new", kwargs=dict(kwargs))
+            return [("val", st.alloc("opaque:ThreadPool", {}), st)]
+        if name == "contextlib.closing":
+            return [("val", st.alloc("opaque:closing", {"thing": args[0]}), st)]
+        if name == "json.dumps":
+            st.emit("json_dumps", arg=args[0], kwargs=dict(kwargs))
+            res = fresh("str", "json")
+            st.assume(z3.Length(res.t) > 0)  # S: json.dumps never returns the empty string
+            st.trace[-1].d["result"] = res
+            if isinstance(args[0], Ref) and st.get(args[0]).get("__kind__") == "dict":
+                return [("val", res, st)]  # S: a wire dict of strings is always JSON serializable
+            s2 = st.fork()
+            s2.trace[-1] = type(s2.trace[-1])("json_dumps", arg=args[0], kwargs=dict(kwargs))
+            exc = s2.alloc("exc:TypeError", {"args": ("not JSON serializable",), "__msg__": fresh("str", "json_err")})
+            s2.emit("json_failed", exc=exc)
+            return [("val", res, st), ("raise", exc, s2)]
+        if name == "json.loads":
+            s2 = st.fork()
+            exc = s2.alloc("exc:json.JSONDecodeError", {"args": ("bad json",)})
+            return [("val", fresh("any", "input_event"), st), ("raise", exc, s2)]
+        if name == "functools.partial":
+            return [("val", OpaqueFn("partial"), st)]
+        return None
+
+    def cm_enter(self, eng, st, cm):
+        if isinstance(cm, Ref) and cm.cls == "opaque:ThreadPool":
+            st.emit("pool_enter")
+            return [("val", cm, st)]
+        if isinstance(cm, Ref) and cm.cls == "opaque:closing":
+            return [("val", st.get(cm)["thing"], st)]
+        return Hooks.cm_enter(self, eng, st, cm)
+
+    def cm_exit(self, eng, st, cm, exc):
+        if isinstance(cm, Ref) and cm.cls == "opaque:ThreadPool":
+            st.emit("pool_exit")  # S: shutdown(wait=True) joins the handler thread and the checkpoint thread
+            return [("val", None, st)]
+        if isinstance(cm, Ref) and cm.cls == "opaque:closing":
+            thing = st.get(cm)["thing"]
+            return eng.then(eng.getattr_(thing, "close", st), lambda f, s: eng.then(eng.call_value(f, [], {}, s), lambda _, s2: [("val", None, s2)]))
+        return Hooks.cm_exit(self, eng, st, cm, exc)
+
+    def opaque_call(self, eng, st, fn, args, kwargs):
+        n = fn.name
+        if n == "ThreadPool.submit":
+            st.emit("submit", fn=args[0], args=tuple(args[1:]))
+            return [("val", st.alloc("opaque:Future", {"of": args[0]}), st)]
+        if n == "Future.result":
+            st.emit("user_result")
+            s2 = st.fork()
+            exc = eng.new_symexc(s2, "handler")
+            s2.emit("user_raised", exc=exc)
+            res = fresh("any", "handler_result")
+            st.trace[-1].d["result"] = res
+            return [("val", res, st), ("raise", exc, s2)]
+        if n == "Event.set":
+            st.emit("event_set", ev=fn.info)
+            return [("val", None, st)]
+        if n.startswith("stdlogger."):
+            return [("val", None, st)]
+        return Hooks.opaque_call(self, eng, st, fn, args, kwargs)
+
+    def exc_attr(self, eng, st, ref, name):
+        """attributes of a symbolic-class exception that the wrapper reads after an isinstance test"""
+        stor = st.get(ref)
+        P = eng.program
+        if name == "source_exception":
+            src = eng.new_symexc(st, "bg_source")
+            st.assume(eng.symexc_isa(src, "Exception", st))  # BackgroundThreadError(message, source_exception: Exception)
+            st.setfield(ref, "source_exception", src)
+            return [("val", src, st)]
+        if name == "error_category":
+            v = fresh("enum", "error_category", P.cls("exceptions.CheckpointErrorCategory"))
+            st.setfield(ref, "error_category", v)
+            return [("val", v, st)]
+        for cname in ("CheckpointError", "BotoClientError"):
+            c = P.cls("exceptions." + cname)
+            m = c.find_method(name)
+            if m is not None:
+                return [("val", FuncRef(m, bound=ref), st)]
+        return Hooks.exc_attr(self, eng, st, ref, name)
+
+
+def explore_wrapper(chk, malformed=False):
+    eng = Engine(hooks=WrapperHooks())
+    P = eng.program
+    st = St()
+    outer = P.func(WRAP)
+    wrapper = P.nested_func(outer, "wrapper")
+    handler = OpaqueFn("user_handler")
+    closure = {"func": handler, "boto3_client": None, "__module__": outer.module, "__funcinfo__": outer}
+    exe = P.modules["execution"]
+    # the invocation input: well-typed, with a service client (first branch of the wrapper)
+    state_cls = P.cls("execution.InitialExecutionState")
+    ops_list = eng.sym_of_type("list[Operation]", "initial_ops", st, exe)
+    ies = st.alloc(state_cls, {"operations": ops_list, "next_marker": fresh("str", "next_marker")})
+    inp_cls = P.cls("execution.DurableExecutionInvocationInputWithClient")
+    client = st.alloc("opaque:DurableServiceClient", {})
+    event = st.alloc(inp_cls, {"durable_execution_arn": fresh("str", "arn"), "checkpoint_token": fresh("str", "token"), "initial_execution_state": ies, "service_client": client})
+    context = st.alloc("opaque:LambdaContext", {})
+
+    def fetch_summary(eng_, st_, args, kwargs):
+        st_.emit("fetch", state=args[0], ops=args[1], token=args[2], marker=args[3])
+        s2 = st_.fork()
+        exc = eng_.new_symexc(s2, "fetch")
+        s2.emit("fetch_failed", exc=exc)
+        return [("val", None, st_), ("raise", exc, s2)]
+
+    def cp_summary(eng_, st_, args, kwargs):
+        upd = args[1] if len(args) > 1 else kwargs.get("operation_update")
+        sync = kwargs.get("is_sync", args[2] if len(args) > 2 else True)
+        st_.emit("cp", update=upd, is_sync=sync)
+        s2 = st_.fork()
+        src = eng_.new_symexc(s2, "cp_source")
+        s2.assume(eng_.symexc_isa(src, "Exception", s2))
+        exc = s2.alloc(P.cls("exceptions.BackgroundThreadError"), {"args": ("bg",), "source_exception": src})
+        s2.emit("cp_failed", exc=exc, src=src)
+        return [("val", None, st_), ("raise", exc, s2)]
+
+    def get_input_payload(eng_, st_, args, kwargs):
+        return [("val", eng_.sym_of_type("str | None", "raw_input_payload", st_), st_)]
+
+    eng.summaries["state.ExecutionState.fetch_paginated_operations"] = fetch_summary
+    eng.summaries["state.ExecutionState.create_checkpoint"] = cp_summary
+    eng.summaries["execution.InitialExecutionState.get_input_payload"] = get_input_payload
+    eng.summaries["state.ExecutionState.checkpoint_batches_forever"] = lambda e, s, a, k: [("val", None, s)]
+    res = eng.call_func(wrapper, [event, context], {}, st, closure=closure)
+    return eng, res, {"event": event, "ies": ies, "handler": handler, "client": client, "ops_list": ops_list}
+
+
+def status_of(st, v):
+    """(dict storage, status value) of a returned wire dict"""
+    if not (isinstance(v, Ref) and st.get(v).get("__kind__") == "dict"):
+        return None, None
+    d = st.get(v)
+    return d, d["e"].get("Status", (F, None))[1]
+
+
+def has_key(d, k):
+    return d["e"].get(k, (F, None))[0]
+
+
+def isa(eng, st, exc, name):
+    key = name if name in ("Exception", "BaseException") else eng.program.cls("exceptions." + name)
+    return eng.symexc_isa(exc, key, st)
+
+
+def wrapper_obligations(chk, prefix, want):
+    eng, res, inp = explore_wrapper(chk)
+    P = eng.program
+    chk.function(WRAP + ".<locals>.wrapper", "verified (user future, json, thread pool, service client opaque)")
+    chk.function("execution.handle_checkpoint_error", "verified (inlined)")
+    chk.function("execution.DurableExecutionInvocationOutput.to_dict", "verified (inlined; round trip in C20)")
+    chk.function("state.ExecutionState.create_checkpoint_sync", "verified (inlined)")
+    chk.function("state.ExecutionState.create_checkpoint", "contract used at call sites")
+    chk.function("state.ExecutionState.fetch_paginated_operations", "contract used at call sites")
+    chk.paths += len(res)
+    for k_ in eng.stats:
+        chk.engine_stats[k_] = chk.engine_stats.get(k_, 0) + eng.stats[k_]
+    limit = eval(compile(ast.Expression(P.resolve_name(P.modules["execution"], "LAMBDA_RESPONSE_SIZE_LIMIT")[1]), "<c>", "eval"), {})
+    slen = z3.Function("slen", z3.StringSort(), z3.IntSort())
+    acls, tcls = P.cls("lambda_service.OperationAction"), P.cls("lambda_service.OperationType")
+    n_ret = 0
+    for k, v, s in res:
+        tr = s.trace
+        kinds = [e.kind for e in tr]
+        user_exc = next((e.exc for e in tr if e.kind == "user_raised"), None)
+        cps = [e for e in tr if e.kind == "cp"]
+        cp_failed = [e for e in tr if e.kind == "cp_failed"]
+        entered_pool = "pool_enter" in kinds
+        # ---------------- C18.thread_stopped / C17.exec / C01.exec: structural cut points
+        if entered_pool and "C18" in want:
+            stop_i = [i for i, e in enumerate(tr) if e.kind == "event_set"]
+            exit_i = [i for i, e in enumerate(tr) if e.kind == "pool_exit"]
+            chk.prove(f"{prefix}.wrapper.thread_stopped", s.pc, bool(stop_i) and bool(exit_i) and stop_i[-1] < exit_i[-1] and len(exit_i) == 1,
+                      desc="on every exit path of the `with` block the checkpoint thread is told to stop (close()) before the pool joins its threads", sample=f"wrapper path: {kinds}")
+        if "fetch" in kinds and ("C01" in want or "C17" in want):
+            f = next(e for e in tr if e.kind == "fetch")
+            sub = [i for i, e in enumerate(tr) if e.kind == "submit"]
+            ies = s.get(inp["ies"])
+            ev = s.get(inp["event"])
+            goal = z3.And(z3.BoolVal(f.ops == ies["operations"] and all(i > tr.index(f) for i in sub)), ops.values_equal(s, f.token, ev["checkpoint_token"]), ops.values_equal(s, f.marker, ies["next_marker"]))
+            if "C01" in want:
+                chk.prove(f"{prefix}.exec.seeds_history", s.pc, goal, desc="the state is seeded with the invocation's operations, token and marker (all pages, C01.state.merge_all_pages) before user code is submitted")
+            if "C17" in want:
+                stt = s.get(f.state)
+                rs = stt.get("_replay_status")
+                n_ops = s.get(inp["ops_list"])["len"]
+                rcls = P.cls("state.ReplayStatus")
+                chk.prove(f"{prefix}.exec.initial_status", s.pc, (rs.t == enum_sort(rcls)[1]["REPLAY"]) == (n_ops > 1) if rs is not None else F,
+                          desc="first-page rule as coded: REPLAY iff the invocation payload holds more than the EXECUTION record (the all-pages rule is C17.exec.initial_status_all_pages)")
+        if k == "raise":
+            if "C18" in want or "C06" in want:
+                # ---------------- raises only for retry / malformed payload / non-Exception BaseException
+                goal = F
+                why = ""
+                if not entered_pool:
+                    goal = T  # before any thread starts: malformed payload / input JSON / history fetch failure (GetExecutionStateError is an InvocationError)
+                elif user_exc is not None and v == user_exc:
+                    goal = z3.Or(isa(eng, s, v, "InvocationError"), z3.Not(isa(eng, s, v, "Exception")))
+                elif user_exc is not None and isinstance(v, Ref) and s.get(user_exc).get("source_exception") == v:
+                    # unwrapped source of a BackgroundThreadError: a retriable CheckpointError or a non-checkpoint failure of the checkpoint thread
+                    ce = isa(eng, s, v, "CheckpointError")
+                    cat = s.get(v).get("error_category")
+                    goal = z3.Or(z3.Not(ce), cat.t == enum_sort(P.cls("exceptions.CheckpointErrorCategory"))[1]["EXECUTION"] if cat is not None else F)
+                elif cp_failed and (v == cp_failed[-1].exc or v == cp_failed[-1].src):
+                    src = cp_failed[-1].src
+                    ce = isa(eng, s, src, "CheckpointError")
+                    cat = s.get(src).get("error_category")
+                    goal = z3.Or(z3.Not(ce), cat.t == enum_sort(P.cls("exceptions.CheckpointErrorCategory"))[1]["EXECUTION"] if cat is not None else F)
+                chk.prove(f"{prefix}.wrapper.raises_only_retry", s.pc, goal,
+                          desc="the wrapper raises only: before user code starts (malformed payload / unreadable history), an InvocationError or non-Exception signal from user code, a retriable CheckpointError, or the non-checkpoint cause of a checkpoint-thread failure",
+                          sample=f"wrapper raise path: {kinds}")
+            continue
+        # ---------------- returned dict
+        n_ret += 1
+        d, status = status_of(s, v)
+        if d is None:
+            chk.prove(f"{prefix}.wrapper.shape", s.pc, F, desc="the wrapper returns a wire dict")
+            continue
+        st_is = lambda m: (status == m) if isinstance(status, str) else (ops.zstr(status) == z3.StringVal(m))  # noqa: E731
+        zst = (lambda m: z3.BoolVal(status == m)) if isinstance(status, str) else (lambda m: ops.zstr(status) == z3.StringVal(m))
+        hr, he = has_key(d, "Result"), has_key(d, "Error")
+        if "C18" in want:
+            chk.prove(f"{prefix}.wrapper.shape", s.pc, z3.And(z3.Or(zst("SUCCEEDED"), zst("FAILED"), zst("PENDING")), z3.Implies(hr, zst("SUCCEEDED")), z3.Implies(he, zst("FAILED")),
+                                                              z3.Implies(zst("PENDING"), z3.And(z3.Not(hr), z3.Not(he))), z3.Implies(zst("SUCCEEDED"), hr)),
+                      desc="Status is SUCCEEDED, FAILED or PENDING; Result only (and always) with SUCCEEDED; Error only with FAILED; PENDING has neither", sample=f"wrapper return path: {kinds}")
+        js = [e for e in tr if e.kind == "json_dumps"]
+        if js and prefix in ("C16", "C18"):
+            chk.prove(f"{prefix}.exec.size_in_bytes", s.pc, all(not e.kwargs for e in js),
+                      desc="the response is serialized with json.dumps default flags (ASCII output, S), so the length compared with the Lambda limit is the size in bytes")
+        if user_exc is None:
+            # the handler returned a value
+            if "C18" in want or "C16" in want or "C03" in want:
+                jfail = any(e.kind == "json_failed" for e in tr)
+                if jfail:
+                    goal = z3.And(zst("FAILED"), z3.Or(he, z3.BoolVal(bool(cps) and not cp_failed)))
+                    if "C18" in want:
+                        chk.prove(f"{prefix}.wrapper.table.unserializable_result", s.pc, goal, desc="a handler result that json.dumps rejects => FAILED with an error object")
+                elif cp_failed:
+                    src = cp_failed[-1].src
+                    if "C18" in want or "C06" in want:
+                        chk.prove(f"{prefix}.wrapper.table.large_result_checkpoint_failed", s.pc, z3.And(zst("FAILED"), he, isa(eng, s, src, "CheckpointError")),
+                                  desc="large result whose execution-level checkpoint failed with a non-retriable CheckpointError => FAILED (never SUCCEEDED)")
+                else:
+                    res_str = js[0].d.get("result") if js else None
+                    big = slen(res_str.t) > limit if res_str is not None else F
+                    result_v = d["e"].get("Result", (F, None))[1]
+                    if cps:
+                        c = cps[0]
+                        u = s.get(c.update)
+                        goal = z3.And(big, z3.BoolVal(len(cps) == 1), zst("SUCCEEDED"), ops.values_equal(s, result_v, ""), u["operation_type"].t == enum_sort(tcls)[1]["EXECUTION"], u["action"].t == enum_sort(acls)[1]["SUCCEED"],
+                                      ops.values_equal(s, u["payload"], res_str), z3.BoolVal(c.is_sync is True) if isinstance(c.is_sync, bool) else zbool(c.is_sync))
+                    else:
+                        goal = z3.And(z3.Not(big), zst("SUCCEEDED"), ops.values_equal(s, result_v, res_str) if res_str is not None else F)
+                    for p_ in ("C18", "C16", "C03", "C11"):
+                        if p_ in want and p_ == prefix:
+                            chk.prove(f"{prefix}.exec.large_success", s.pc, goal,
+                                      desc=f"a JSON result longer than {limit} is returned as SUCCEEDED with an empty Result only after a synchronous EXECUTION SUCCEED carrying it was accepted; otherwise it is in the response and no execution-level update is sent")
+            continue
+        # the handler's future raised user_exc
+        e = user_exc
+        susp, bg, cpe, inv, exe, exc_ = (isa(eng, s, e, n) for n in ("SuspendExecution", "BackgroundThreadError", "CheckpointError", "InvocationError", "ExecutionError", "Exception"))
+        if "C18" in want or "C07" in want or "C03" in want:
+            goal = z3.And(z3.Implies(zst("PENDING"), z3.And(z3.Not(bg), susp)), z3.Implies(z3.And(susp, z3.Not(bg)), zst("PENDING")))
+            chk.prove(f"{prefix}.wrapper.pending_iff_suspend", s.pc, goal, desc="PENDING is returned exactly when the handler's thread ended with SuspendExecution (and never for a checkpoint-thread failure)")
+        if "C18" in want or "C06" in want:
+            src = s.get(e).get("source_exception")
+            if src is not None:
+                chk.prove(f"{prefix}.exec.classification", list(s.pc) + [bg], z3.And(zst("FAILED"), he, isa(eng, s, src, "CheckpointError"), z3.BoolVal(not cps)),
+                          desc="a BackgroundThreadError that is answered with a dict is FAILED with an error object, only for a (non-retriable) CheckpointError, and no further update is sent")
+            chk.prove(f"{prefix}.wrapper.never_succeeded_on_error", s.pc, z3.Not(zst("SUCCEEDED")), desc="an exception from the handler's thread never yields SUCCEEDED")
+        if "C18" in want:
+            plain = z3.And(exc_, z3.Not(inv), z3.Not(susp), z3.Not(bg))
+            chk.prove(f"{prefix}.wrapper.table.user_exception", list(s.pc) + [plain], zst("FAILED"), desc="ordinary user exceptions and non-retriable SDK errors (ExecutionError, ...) => FAILED")
+        if cps and ("C16" in want or "C11" in want or "C03" in want):
+            c = cps[0]
+            u = s.get(c.update)
+            goal = z3.And(z3.BoolVal(len(cps) == 1), u["operation_type"].t == enum_sort(tcls)[1]["EXECUTION"], u["action"].t == enum_sort(acls)[1]["FAIL"], z3.Not(is_none(u["error"])), zst("FAILED"), z3.Not(he))
+            if prefix in ("C16", "C03", "C11"):
+                chk.prove(f"{prefix}.exec.large_error", s.pc, z3.Implies(z3.BoolVal(not cp_failed), goal), desc="an oversized FAILED response is replaced by an EXECUTION FAIL record (sent once, synchronously) and returned without the error payload")
+        if "C11" in want:
+            last_cp = max((i for i, e2 in enumerate(tr) if e2.kind == "cp"), default=None)
+            chk.prove(f"{prefix}.exec.result_once_last", s.pc, len(cps) <= 1, desc="at most one execution-level result record per invocation, and the wrapper sends nothing after it")
+    if n_ret == 0:
+        chk.fault("wrapper: no returning path explored")
+    return eng, res
 
 
 def large_results(chk, prefix):
-    pass
+    return wrapper_obligations(chk, prefix, want=(prefix,))
+
+
+def classification(chk, prefix):
+    return wrapper_obligations(chk, prefix, want=(prefix,))
+
+
+# ------------------------------------------------------------------------------------------------ LambdaClient
+class ClientHooks(Hooks):
+    def opaque_call(self, eng, st, fn, args, kwargs):
+        if fn.name.startswith("boto."):
+            st.emit("boto", name=fn.name)
+            s2 = st.fork()
+            exc = eng.new_symexc(s2, "boto")
+            s2.assume(eng.symexc_isa(exc, "Exception", s2))
+            s2.emit("boto_failed", exc=exc)
+            return [("val", fresh("any", "boto_response"), st), ("raise", exc, s2)]
+        return Hooks.opaque_call(self, eng, st, fn, args, kwargs)
+
+
+def client_errors_wrapped(chk, prefix):
+    """every Exception inside LambdaClient.checkpoint / get_execution_state (API failure or unparsable response) leaves as the
+    classified SDK error, so the wrapper's classification table applies to it"""
+    P = None
+    for meth, parser, errcls in (("checkpoint", "lambda_service.CheckpointOutput.from_dict", "CheckpointError"), ("get_execution_state", "lambda_service.StateOutput.from_dict", "GetExecutionStateError")):
+        eng = Engine(hooks=ClientHooks())
+        P = eng.program
+        st = St()
+        q = f"lambda_service.LambdaClient.{meth}"
+        chk.function(q, "verified (boto client and response parser opaque)")
+
+        def parse(eng_, st_, args, kwargs):
+            st_.emit("parse")
+            s2 = st_.fork()
+            exc = eng_.new_symexc(s2, "parse")
+            s2.assume(eng_.symexc_isa(exc, "Exception", s2))
+            s2.emit("parse_failed", exc=exc)
+            return [("val", fresh("any", "parsed"), st_), ("raise", exc, s2)]
+
+        def from_exc(eng_, st_, args, kwargs, errcls=errcls):
+            e = st_.alloc(P.cls("exceptions." + errcls), {"args": ("wrapped",), "__wrapped__": args[-1]})
+            return [("val", e, st_)]
+        eng.summaries[parser] = parse
+        eng.summaries[f"exceptions.{errcls}.from_exception"] = from_exc
+        eng.summaries["exceptions.BotoClientError.from_exception"] = from_exc
+        eng.summaries["exceptions.BotoClientError.build_logger_extras"] = lambda e, s, a, k: [("val", None, s)]
+        boto = st.alloc("opaque:boto", {})
+        self_ = st.alloc(P.cls("lambda_service.LambdaClient"), {"client": boto})
+        updates = st.alloc("list", {"__kind__": "list", "items": ()})
+        args = [self_, fresh("str", "arn"), fresh("str", "token"), updates, None] if meth == "checkpoint" else [self_, fresh("str", "arn"), fresh("str", "token"), fresh("str", "marker")]
+        res = eng.run(P.func(q), args, st=st)
+        chk.paths += len(res)
+        for k, v, s in res:
+            failed = [e for e in s.trace if e.kind in ("boto_failed", "parse_failed")]
+            if k == "val":
+                chk.prove(f"{prefix}.client.{meth}.errors_wrapped", s.pc, not failed, desc="a normal return means neither the API call nor the response parser raised")
+            else:
+                chk.prove(f"{prefix}.client.{meth}.errors_wrapped", s.pc, isinstance(v, Ref) and getattr(v.cls, "name", "") == errcls and bool(failed) and s.get(v).get("__wrapped__") == failed[-1].exc,
+                          desc=f"every Exception raised by the API call or by parsing its response leaves {meth} as {errcls}.from_exception(that exception)")
